@@ -1205,6 +1205,9 @@ func runC01(e *Env) error {
 	c01AttrOrders(e)
 	c01SharedHandles(e)
 	c01LoaderAfterMiss(e)
+	if err := c01SharedLibCorpus(e); err != nil {
+		return err
+	}
 	matchesOracle(e, "theorem C01_history_independence (a pattern matched earlier, on any engine, does not change a later match; implementation-only oracle against package regexp)")
 	return nil
 }
